@@ -108,6 +108,36 @@ def fn_idents(path, names):
     return out
 
 
+def fn_writes(path, fname, members):
+    """members that the named function assigns / clears / erases (token level: X = | X . clear ( | X . erase ( | X [ ... ] = )"""
+    toks = tokens(strip(open(path, errors="replace").read()))
+    out = set()
+    for ret, name, params, body in functions(toks):
+        if name.split("::")[-1] != fname:
+            continue
+        for i, t in enumerate(body):
+            if t not in members:
+                continue
+            nxt = body[i + 1] if i + 1 < len(body) else ""
+            if nxt == "=":
+                out.add(t)
+            elif nxt == "." and i + 2 < len(body) and body[i + 2] in ("clear", "erase", "resize", "assign", "swap"):
+                out.add(t)
+            elif nxt == "[":
+                d, e = 0, i + 1
+                while e < len(body):
+                    if body[e] == "[":
+                        d += 1
+                    elif body[e] == "]":
+                        d -= 1
+                        if d == 0:
+                            break
+                    e += 1
+                if e + 1 < len(body) and body[e + 1] == "=":
+                    out.add(t)
+    return out
+
+
 def generate(repo):
     src = os.path.join(repo, "src")
     ih = data_members(class_body(tokens(strip(open(os.path.join(src, "IPhreeqc.hpp")).read())), "IPhreeqc"))
@@ -123,6 +153,7 @@ def generate(repo):
            "From Coq Require Import List String.", "Import ListNotations.", "Local Open Scope string_scope.", "",
            "Definition iphreeqc_members : list string := %s." % q(ih),
            "Definition unload_mentions : list string := %s." % q(sorted(x for x in ip.get("UnLoadDatabase", ()) if x in ih)),
+           "Definition unload_writes : list string := %s." % q(sorted(fn_writes(os.path.join(src, "IPhreeqc.cpp"), "UnLoadDatabase", set(ih)))),
            "Definition call_start_mentions : list string := %s." % q(sorted(x for x in ip.get("check_database", ()) if x in ih)),
            "Definition update_errors_mentions : list string := %s." % q(sorted(x for x in ip.get("update_errors", ()) if x in ih)),
            "Definition listcomponents_mentions : list string := %s." % q(sorted(x for x in ip.get("ListComponents", ()) if x in ih)),
